@@ -104,6 +104,9 @@ type LockInfo struct {
 	// per instruction: locks certainly / possibly held just before it executes
 	must map[ssa.Instruction]lockSet
 	may  map[ssa.Instruction]lockSet
+	// per instruction: locks that may be held in shared (RLock) mode only
+	shared      map[ssa.Instruction]lockSet
+	entryShared map[*ssa.Function]lockSet
 	// per function entry
 	entryMust map[*ssa.Function]lockSet
 	entryMay  map[*ssa.Function]lockSet
@@ -141,6 +144,7 @@ func computeLocksUncached(p *Prog) *LockInfo {
 		must: map[ssa.Instruction]lockSet{}, may: map[ssa.Instruction]lockSet{},
 		entryMust: map[*ssa.Function]lockSet{}, entryMay: map[*ssa.Function]lockSet{},
 		acquires: map[*ssa.Function]lockSet{},
+		shared:   map[ssa.Instruction]lockSet{}, entryShared: map[*ssa.Function]lockSet{},
 	}
 	for _, f := range p.ModFuncs {
 		if len(f.Blocks) == 0 || isTestFile(p.Fset, f.Pos()) {
@@ -214,10 +218,14 @@ func computeLocksUncached(p *Prog) *LockInfo {
 		changed := false
 		for _, f := range li.funcs {
 			var em, ey lockSet
+			es := lockSet{}
 			if cs, ok := closureSite[f]; ok {
 				em, ey = li.must[cs], li.may[cs]
 				if em == nil {
 					em, ey = lockSet{}, lockSet{}
+				}
+				for k := range li.shared[cs] {
+					es[k] = true
 				}
 			} else {
 				ey = lockSet{}
@@ -247,13 +255,18 @@ func computeLocksUncached(p *Prog) *LockInfo {
 					for k := range sy {
 						ey[k] = true
 					}
+					if s.sync {
+						for k := range li.shared[s.in] {
+							es[k] = true
+						}
+					}
 				}
 				if em == nil {
 					em = lockSet{}
 				}
 			}
-			if old, ok := li.entryMust[f]; !ok || !old.equal(em) || !li.entryMay[f].equal(ey) {
-				li.entryMust[f], li.entryMay[f] = em.clone(), ey.clone()
+			if old, ok := li.entryMust[f]; !ok || !old.equal(em) || !li.entryMay[f].equal(ey) || !li.entryShared[f].equal(es) {
+				li.entryMust[f], li.entryMay[f], li.entryShared[f] = em.clone(), ey.clone(), es
 				changed = true
 			}
 			li.flow(f)
@@ -315,12 +328,16 @@ func (li *LockInfo) flow(f *ssa.Function) {
 	work := []*ssa.BasicBlock{f.Blocks[0]}
 	outMust := map[*ssa.BasicBlock]lockSet{}
 	outMay := map[*ssa.BasicBlock]lockSet{}
+	inSh := map[*ssa.BasicBlock]lockSet{f.Blocks[0]: li.entryShared[f].clone()}
+	outSh := map[*ssa.BasicBlock]lockSet{}
 	for len(work) > 0 {
 		b := work[0]
 		work = work[1:]
 		m, y := inMust[b].clone(), inMay[b].clone()
+		sh := inSh[b].clone()
 		for _, in := range b.Instrs {
 			li.must[in], li.may[in] = m.clone(), y.clone()
+			li.shared[in] = sh.clone()
 			if _, isDefer := in.(*ssa.Defer); isDefer {
 				continue // deferred unlock: held to exit
 			}
@@ -331,22 +348,32 @@ func (li *LockInfo) flow(f *ssa.Function) {
 				if op.acquire {
 					m[op.f], y[op.f] = true, true
 					acq[op.f] = true
+					if op.read {
+						sh[op.f] = true
+					} else {
+						delete(sh, op.f)
+					}
 				} else {
 					delete(m, op.f)
 					delete(y, op.f)
+					delete(sh, op.f)
 				}
 			}
 		}
-		outMust[b], outMay[b] = m, y
+		outMust[b], outMay[b], outSh[b] = m, y, sh
 		for _, s := range b.Succs {
 			if !reach[s] || s == f.Recover {
 				continue
 			}
 			nm, ny := lockSet(nil), lockSet{}
+			ns := lockSet{}
 			for _, p := range s.Preds {
 				pm, ok := outMust[p]
 				if !ok {
 					continue
+				}
+				for k := range outSh[p] {
+					ns[k] = true
 				}
 				if nm == nil {
 					nm = pm.clone()
@@ -364,8 +391,8 @@ func (li *LockInfo) flow(f *ssa.Function) {
 			if nm == nil {
 				nm = lockSet{}
 			}
-			if old, ok := inMust[s]; !ok || !old.equal(nm) || !inMay[s].equal(ny) {
-				inMust[s], inMay[s] = nm, ny
+			if old, ok := inMust[s]; !ok || !old.equal(nm) || !inMay[s].equal(ny) || !inSh[s].equal(ns) {
+				inMust[s], inMay[s], inSh[s] = nm, ny, ns
 				work = append(work, s)
 			}
 		}
